@@ -3,6 +3,9 @@
 from __future__ import annotations
 
 
+SENSITIVE = u'\u0301\u0308\u0327\u212b\u2126\ufb01\u00b5\u0130\u0131\u1e9e\u017f\u1100\u1161\u11a8\u00ad\u200b\u200d\ufeff\u2028\u0345\u03c2'
+
+
 def unicode_char(rng, special=u''):
 	r = rng.random()
 	if special and r < 0.25:
@@ -16,6 +19,9 @@ def unicode_char(rng, special=u''):
 	if r < 0.80:
 		return chr(rng.randrange(0x7f, 0xa0))
 	if r < 0.92:
+		if rng.random() < 0.15:
+			# characters that a Unicode normalisation form, case folding or a compatibility mapping would change, invisible ones: data
+			return rng.choice(SENSITIVE)
 		c = rng.randrange(0x100, 0xffff)
 		while 0xd800 <= c < 0xe000:
 			c = rng.randrange(0x100, 0xffff)
